@@ -4,8 +4,9 @@ Model of the side conditions: coq/Rules/FusionRules.v (algebra: coq/Fusion/*, C1
 For every rule a grid of hosts = the target pattern with the parameters the pattern / check / rewrite read, each near miss
 falsifying exactly one conjunct the property names (unknown type or shape, non-constant operand, a value only approximately
 the required one, an attribute missing or at another value).  The real rule is applied; `fired` is compared in Coq with the
-side condition (one-directional: fired => side condition; LayerNorm / RMS also the emitted axis / stash_type), and the
-property itself is observed on onnxruntime (optimisations off) with the float tolerance of harness/c19_build.close.
+model of the check, two-directionally (LayerNorm / RMS also the emitted axis / stash_type); where a commit repaired the check the
+model has a `legacy` variant and probe hosts decide per run which one the implementation is (legacy = violation, replayed with
+its input).  The property itself is observed on onnxruntime (optimisations off) with the float tolerance of harness/c19_build.close.
 Host builders are those of C19 (harness/c19_norm.py, c19_misc.py, c19_build.py; imported, not modified).
 """
 from __future__ import annotations
@@ -37,10 +38,12 @@ def _oz(v):
     return copt(v, cz)
 
 
-def _sq(sq, exponent):
+def _sq(sq, exponent, dtype="float32"):
+    """The exponent as the exact fraction of the constant that is stored in the model (float32 / float16 / float64 value)."""
     if sq == "mul":
         return "SqMulF"
-    f = Fraction(exponent).limit_denominator(10 ** 9)
+    npdt = {"float32": np.float32, "float16": np.float16, "float64": np.float64}[dtype]
+    f = Fraction(float(npdt(exponent)))
     return f"(SqPowF {cz(f.numerator)} {cz(f.denominator)})"
 
 
@@ -164,7 +167,7 @@ def fam_ln(R):
         h = ("{| lh_xdt := %s; lh_eps_singleton := %s; lh_axes1 := %s; lh_axes2 := %s; lh_keepdims1 := %s; lh_keepdims2 := %s; lh_sq := %s; lh_norm := %s |}" % (
             "None" if p.get("x_unknown") else _odt(p["dtype"]), cbool(eps_single),
             "None" if p.get("axes_input") == 1 else _olz(list(p.get("axes1", (-1,)))), _olz(list(p.get("axes2", (-1,)))),
-            _oz(p.get("keepdims1", 1)), _oz(p.get("keepdims2", 1)), _sq(p["sq"], p.get("exponent", 2.0)), "NormRecip" if p["norm"] == "recip" else "NormDiv"))
+            _oz(p.get("keepdims1", 1)), _oz(p.get("keepdims2", 1)), _sq(p["sq"], p.get("exponent", 2.0), p["dtype"]), "NormRecip" if p["norm"] == "recip" else "NormDiv"))
         obs = "None"
         if fired:
             a = find(m2, "LayerNormalization")[0][2]
@@ -173,8 +176,7 @@ def fam_ln(R):
             if abs(a.get("epsilon", -1) - want_eps) > 1e-5 * want_eps:
                 ctx.tie_broken("correspondence", "fusion:layer_norm:epsilon", f"{p}: fused epsilon {a.get('epsilon')}")
         R.cases.append(f"FLn {h} {cbool(fired)}")
-        if tag not in KNOWN_CLASS:
-            R.attr_cases.append(f"(FLn {h} {cbool(fired)}, {obs})")
+        R.attr_cases.append(f"(FLn {h} {cbool(fired)}, {obs})")
         R.meta.append(("layer_norm", p, fired))
         if tag == "fire" and p["dtype"] in ("float32", "float64") and not fired:
             ctx.tie_broken("correspondence", "fusion:layer_norm:expected-to-fire", f"{p}")
@@ -224,14 +226,13 @@ def fam_rms(R):
         eps_single = p.get("eps_kind") != "input" and int(np.prod(es)) == 1
         h = ("{| rh_xdt := %s; rh_sdt := %s; rh_compute := %s; rh_eps_float_singleton := %s; rh_axes := %s; rh_keepdims := %s; rh_noop := %s; rh_exp := %s; rh_mul_order := %s |}" % (
             _odt(p["xdtype"]), _odt(p["sdtype"]), _odt(p["compute"]), cbool(eps_single), _olz(list(p.get("axes", (-1,)))),
-            _oz(1 if "keepdims" in ra else None), _oz(0 if "noop_with_empty_axes" in ra else None), _sq("pow", p.get("exponent", 2.0)), cbool(p["mul_order"])))
+            _oz(1 if "keepdims" in ra else None), _oz(0 if "noop_with_empty_axes" in ra else None), _sq("pow", p.get("exponent", 2.0), p["compute"] or p["xdtype"]), cbool(p["mul_order"])))
         obs = "None"
         if fired:
             a = find(m2, "RMSNormalization")[0][2]
             obs = f"(Some ({cz(a.get('axis', -999))}, {cz(a.get('stash_type', -999))}))"
         R.cases.append(f"FRms {h} {cbool(fired)}")
-        if tag not in KNOWN_CLASS:
-            R.attr_cases.append(f"(FRms {h} {cbool(fired)}, {obs})")
+        R.attr_cases.append(f"(FRms {h} {cbool(fired)}, {obs})")
         R.meta.append(("rms_norm", p, fired))
         if tag == "fire" and not fired:
             ctx.tie_broken("correspondence", "fusion:rms_norm:expected-to-fire", f"{p}")
@@ -404,8 +405,9 @@ def fam_gqa(R):
         sh = _shapes_of(m)
         f = lambda n: copt(sh.get(n), lambda l: clist([cz(x) for x in l]))  # noqa: E731
         h = ("{| gh_query := %s; gh_key := %s; gh_value := %s; gh_past_key := %s; gh_past_value := %s; gh_present_key := %s; gh_present_value := %s; "
-             "gh_expand_key := %s; gh_expand_value := %s; gh_is_causal := %s |}" % (
-                 f("q"), f("k"), f("v"), f("pk"), f("pv"), f("rep_k"), f("rep_v"), f("expand_k"), f("expand_v"), _oz(p.get("attrs", {}).get("is_causal"))))
+             "gh_expand_key := %s; gh_expand_value := %s; gh_is_causal := %s; gh_unsq_scalar2 := %s; gh_concat_axis := %s |}" % (
+                 f("q"), f("k"), f("v"), f("pk"), f("pv"), f("rep_k"), f("rep_v"), f("expand_k"), f("expand_v"), _oz(p.get("attrs", {}).get("is_causal")),
+                 cbool(p.get("scalar_axes", True)), _oz(p.get("concat_axis", -2))))
         R.cases.append(f"FGqa {h} {cbool(fired)}")
         R.meta.append(("gqa", p, fired))
         if fired:
@@ -417,39 +419,50 @@ def fam_gqa(R):
             ctx.tie_broken("correspondence", "fusion:gqa:expected-to-fire", f"{p}")
 
 
-KNOWN_CLASS = {"approx-exponent", "is-causal-1", "expand-leading-group"}
+POW_PROBE = {"approx-exponent"}
+GQA_PROBE = {"is-causal-1", "expand-leading-group"}
 
 
 def family(ctx):
     R = _Run(ctx)
     for fam in (fam_ln, fam_rms, fam_rot, fam_gqa):
         fam(R)
-    body = (f"Definition cases : list fcase := {clist(R.cases)}.\nEval vm_compute in (fdisagreeing 0 cases).\n"
+    # probes: which variant of the repaired checks is the implementation under test?  (legacy = the check before commits
+    # cf408b5 / aa8c462, refuted in Props/C05_fusion.v).  A probe host is one on which exactly the repaired conjunct decides.
+    pow_legacy = any(f for _, p, f in R.meta if p.get("tag") in POW_PROBE)
+    gqa_legacy = any(f for _, p, f in R.meta if p.get("tag") in GQA_PROBE)
+    pl, gl = ("true" if pow_legacy else "false"), ("true" if gqa_legacy else "false")
+    body = (f"Definition cases : list fcase := {clist(R.cases)}.\nEval vm_compute in (fdisagreeing {pl} {gl} 0 cases).\n"
             f"Definition acases : list (fcase * option (Z * Z)) := {clist(R.attr_cases)}.\n"
-            "Eval vm_compute in (adisagreeing 0 acases).")
+            f"Eval vm_compute in (adisagreeing {pl} 0 acases).")
     ok, vals, raw = ctx.coq_eval(["OV.Fusion.Norm", "OV.Fusion.Rotary", "OV.Rules.FusionRules", "OV.Rules.FusionRulesProofs"], body, name="fusion")
     if not ok:
         ctx.tie_broken("correspondence", "fusion:model-evaluation", raw[-800:])
         return
     bad = common.parse_nat_list(vals[0])
     nbad_attr = len(common.parse_nat_list(vals[1]))
-    unexplained = []
-    for i in bad:
+    for i in bad[:5]:
         rule, p, fired = R.meta[i]
-        # the rule fired where the side condition is false: a C05 violation iff the property fails there (the oracle above
-        # has reported it under the key of its class); otherwise the model is too strict
-        if p.get("tag") in KNOWN_CLASS:
-            continue
-        unexplained.append((rule, p))
-    for rule, p in unexplained[:5]:
-        ctx.tie_broken("correspondence", f"fusion:{rule}", f"fired on {p} although Rules/FusionRules.v's side condition is false and no output difference was observed")
+        ctx.tie_broken("correspondence", f"fusion:{rule}", f"{'fired' if fired else 'did not fire'} on {p}: differs from Rules/FusionRules.v's model of the check "
+                       f"(variant: pow exponent {'legacy isclose' if pow_legacy else 'exact'}, gqa {'legacy' if gqa_legacy else 'shipped'})")
     if nbad_attr:
-        ctx.tie_broken("correspondence", "fusion:emitted-attributes", f"{nbad_attr} LayerNorm/RMS instances: emitted (axis, stash_type) differ from ln_fires / rms_fires")
-    ctx.obligation("correspondence fusion: rules.fusion rules fire only where Rules/FusionRules.v's side conditions hold (known finding classes excepted, each replayed by the oracle); "
-                   "LayerNormalization / RMSNormalization axis and stash_type as modelled", not unexplained and not nbad_attr)
+        ctx.tie_broken("correspondence", "fusion:emitted-attributes", f"{nbad_attr} LayerNorm/RMS instances: emitted (axis, stash_type) differ from ln_fires_v / rms_fires_v")
+    # a legacy variant is the refuted check: the oracle has replayed its witnesses above (violations with input); if it stayed silent
+    # the regression is still reported
+    reported = {v.get("key") for v in getattr(ctx, "violations", [])} | {k for k, _ in getattr(ctx, "known_hits", [])}
+    if pow_legacy and not any(k and "approximate-pow-exponent" in k for k in reported):
+        ctx.tie_broken("correspondence", "fusion:pow-exponent-variant", "the implementation matches the legacy (isclose) exponent test refuted by C05_fusion_pow_exponent_legacy_refuted, but no output difference was observed")
+    if gqa_legacy and not any(k and k.startswith("C05:fusion:gqa:") for k in reported):
+        ctx.tie_broken("correspondence", "fusion:gqa-variant", "the implementation matches the legacy GQA check refuted by C05_fusion_gqa_impl_check_refuted, but no output difference was observed")
+    ctx.obligation("correspondence fusion (two-directional): every rules.fusion rule fired exactly where Rules/FusionRules.v's model of its check says so on the generated hosts; "
+                   "LayerNormalization / RMSNormalization axis and stash_type as modelled", not bad and not nbad_attr)
+    ctx.obligation("variant fusion: the implementation is the shipped variant of the repaired checks (exact Pow exponent: cf408b5; GQA Expand shape + is_causal: aa8c462), "
+                   "not the legacy one refuted in Props/C05_fusion.v", not pow_legacy and not gqa_legacy,
+                   f"pow exponent {'LEGACY' if pow_legacy else 'shipped'}, gqa {'LEGACY' if gqa_legacy else 'shipped'}")
+    ctx.cover(fusion_variant_pow_exponent="legacy" if pow_legacy else "shipped", fusion_variant_gqa="legacy" if gqa_legacy else "shipped")
     for rule, minimum in (("layer_norm", 8), ("layer_norm_bias", 2), ("rms_norm", 6), ("rotary_embedding", 4), ("partial_rotary_embedding", 3), ("gqa", 6)):
         U.guard(ctx, f"fusion:{rule}", R.fired.get(rule, 0), minimum)
-    ctx.cover(fusion_instances=dict(R.n), fusion_fired=dict(R.fired), fusion_side_condition_false_but_fired=len(bad))
+    ctx.cover(fusion_instances=dict(R.n), fusion_fired=dict(R.fired), fusion_model_disagreements=len(bad))
     ctx.sample({"family": "fusion", "case": str(R.meta[len(R.meta) // 2])[:400]})
     ctx.assume("rules.fusion: scalars form a field (no rounding); Sqrt, Pow with a constant exponent (only Pow(v, 2) = v*v is used), Cos/Sin and the per-head attention "
                "function of Attention-23 are abstract; Attention-23's head mapping (query head h reads key/value head h / (H/Hkv); past_key/past_value concatenated before the "
